@@ -11,11 +11,14 @@ CONSTANTS
   NB = 16
   Styles <- AllStyles
   EmitMod = 1
+  HistLen = 2
 INVARIANT ReadBack
 INVARIANT V1Algorithm
 INVARIANT AutoOnV1
 INVARIANT AutoOnMixed
 INVARIANT AutoOnV2
+INVARIANT AtNeutral
+INVARIANT HistoryIndependent
 INVARIANT Classes
 INVARIANT Witness
 INVARIANT Emit
